@@ -3,7 +3,7 @@
        model side: the exported self rows of the lock table REGENERATED FROM THE SOURCE (extracted
        [lock_table_x]) for the type and the types it embeds; spec: every such method has a row and every
        row of it satisfies [method_ok] (evaluated in Coq) (or is a recorded exception).
-   LIN/STRESS/EBMID ...  | race=<0|1> [at=...] [crash=1 ..|hang=1] [lin=<0|1> ops= ovl= [why=..] H <history>]
+   LIN/STRESS/EBMID/SNAPMID ...  | race=<0|1> [at=...] [crash=1 ..|hang=1] [lin=<0|1> ops= ovl= [why=..] H <history>]
        The observation of a concurrent run is not a function of the input; the "model" is the set of
        admissible observations (no race report, no crash, linearizable history): model_obs echoes the
        observation when it is admissible and is the canonical admissible prefix otherwise.
@@ -123,7 +123,7 @@ let sem_apply ((h, c) : metric * metric) (op : string list) : (metric * metric) 
   | [o; n; s] ->
     let w = { mnum = n_of_tok n; msize = n_of_tok s } in
     (match o with
-     | "TryAcquire" | "Acquire0" -> (match sem_try h c w with Some h' -> ((h', c), "1") | None -> ((h, c), "0"))
+     | "TryAcquire" | "Acquire0" | "AcquireB" -> (match sem_try h c w with Some h' -> ((h', c), "1") | None -> ((h, c), "0"))
      | "Release" -> ((sem_release h c w, c), "ok")
      | "Processing" -> ((h, c), num h.mnum ^ "," ^ num h.msize)
      | "Available" ->
@@ -162,7 +162,7 @@ let eval inp obs =
       note = (if bad = [] then "" else "rows violating the lock discipline: " ^
                 String.concat "," (List.map (fun (ty, m, _, _) -> ty ^ "." ^ m) bad)) ^
              (if missing = [] then "" else " methods without a row: " ^ String.concat "," missing) }
-  | kind :: _ when kind = "LIN" || kind = "STRESS" || kind = "EBMID" ->
+  | kind :: _ when kind = "LIN" || kind = "STRESS" || kind = "EBMID" || kind = "SNAPMID" ->
     let race = not (has_tok "race=0" obs) in
     let crash = has_tok "crash=1" obs || has_tok "hang=1" obs in
     let wants_lin = kind <> "STRESS" in
